@@ -170,38 +170,43 @@ namespace occa {
         modeDevice->maxBytesAllocated, modeDevice->bytesAllocated
       );
 
-      /*Loop through the reservation list*/
+      /*
+      Loop through the reservation list.
+      A block is a run of reservations whose ranges, rounded out to the alignment,
+      overlap. Moving whole aligned blocks keeps the packed size equal to reserved
+      */
       auto it = reservations.begin();
       modeMemory_t* m = *it;
-      dim_t lo = m->offset;    /*Start point of current block*/
-      dim_t hi = lo + m->size; /*End point of current block*/
+      dim_t lo = (m->offset / alignment) * alignment; /*Start point of current block*/
+      dim_t hi = ((m->offset + m->size + alignment - 1)
+                  / alignment) * alignment;           /*End point of current block*/
       dim_t offset = 0;
       udim_t newReserved = 0;
-      setPtr(m, newBuffer, offset);
+      setPtr(m, newBuffer, offset + (m->offset - lo));
       do {
 
         it++;
 
         if (it == reservations.end()) {
           /*If this reservation is the last one, copy the block and we're done*/
-          memcpy(newBuffer, offset, buffer, lo, hi - lo);
-          newReserved += ((hi - lo + alignment - 1) / alignment) * alignment;
+          memcpy(newBuffer, offset, buffer, lo, std::min(hi, (dim_t) size) - lo);
+          newReserved += hi - lo;
         } else {
           /*Look at next reservation*/
           m = *it;
-          const dim_t mlo = m->offset;
-          const dim_t mhi = m->offset + m->size;
+          const dim_t mlo = (m->offset / alignment) * alignment;
+          const dim_t mhi = ((m->offset + m->size + alignment - 1)
+                             / alignment) * alignment;
           if (mlo > hi) {
             /*
             If the start point of the next reservation is in a new block
             copy the last block to the new allocation
             */
             memcpy(newBuffer, offset, buffer, lo, hi - lo);
-            const udim_t reservationSize = ((hi - lo + alignment - 1) / alignment) * alignment;
-            newReserved += reservationSize;
+            newReserved += hi - lo;
 
             /*Increment offset, and track start/end of current block*/
-            offset += reservationSize;
+            offset += hi - lo;
             lo = mlo;
             hi = mhi;
           } else {
